@@ -21,18 +21,25 @@
         res.built_from(snapshot.origins_spec()),
 //@ beforeloop 1
         let ghost all = snapshot.origins_spec();
-//@ loopvar 1 it
 //@ loop 1
             invariant
-                it.iter.obeys_prophetic_iter_laws(),
-                it.seq() == all,
-                0 <= it.index@ <= all.len(),
+                iter_1.obeys_prophetic_iter_laws(), iter_1.decrease() is Some,
+                all == snapshot.origins_spec(),
+                iter_1.remaining().len() <= all.len(),
+                iter_1.remaining() == all.skip(all.len() - iter_1.remaining().len()),
                 // C20
-                matched@ == sel(all, it.index@, prefix, asn, Class::Matched),
+                matched@ == sel(all, all.len() - iter_1.remaining().len(), prefix, asn, Class::Matched),
                 // C20
-                bad_asn@ == sel(all, it.index@, prefix, asn, Class::BadAsn),
+                bad_asn@ == sel(all, all.len() - iter_1.remaining().len(), prefix, asn, Class::BadAsn),
                 // C20
-                bad_len@ == sel(all, it.index@, prefix, asn, Class::BadLen),
+                bad_len@ == sel(all, all.len() - iter_1.remaining().len(), prefix, asn, Class::BadLen),
+            ensures
+                iter_1.remaining().len() == 0,
+            decreases iter_1.decrease()->Some_0,
+//@ loopentry 1
+                assert(iter_1.remaining().len() > 0 ==>
+                    iter_1.remaining()[0] == all[all.len() - iter_1.remaining().len()]
+                    && iter_1.remaining().skip(1) == all.skip(all.len() - iter_1.remaining().len() + 1));
 //@ fn RouteValidity::state
 //@ spec
     ensures
